@@ -1,4 +1,4 @@
-from . import corpus
+from . import corpus, paircorpus
 ID = "C03"
 LEVEL = "model_checking"
 HARNESS = "harness/c03_hostile.py"
@@ -6,7 +6,7 @@ MODE = "corpus"
 EXPLANATION = ("For each corpus class and each length n, ALL 256^n byte strings are one symbolic input to the generated deserializer (real EoReader); the result is compared field by field "
                "with O-xml's reading rules executed over the independent O-reader model. This subsumes prefixes, substitutions, insertions and junk. Loops get an unwinding bound; none is hit.")
 BOUNDS = {"quick": "every class of corpus/core (and, for lengths 0..3, a VERIF_SEED-chosen sample of 160 pairs + all singles of the generated pair corpus) x every byte string of length 0..4, entry mode non-chunked (and chunked for structs); element counts decoded from the data explored up to 6",
-          "thorough": "every class of corpus/core and (lengths 0..4) ALL 8,390 structs of the generated pair corpus x every byte string of length 0..6 (0..7 for classes without unbounded loops), both entry modes"}
+          "thorough": "every class of corpus/core and (lengths 0..4) " + paircorpus.size_text() + " x every byte string of length 0..6 (0..7 for classes without unbounded loops), both entry modes"}
 OUTSIDE = "specifications not in the corpus; longer inputs"
 ASSUMPTIONS = ["O-xml reading rules (harness/vh_refsem.py) over the O-reader model (harness/vh_reader_model.py)"]
 
